@@ -155,10 +155,15 @@ func run(sc scenario) (body func(), check func(r *vrt.Result) []finding) {
 			}
 			s.wrDone = true
 			if initiator {
-				if sc.Mode == "full" {
+				switch sc.Mode {
+				case "full":
 					s.closed = true
 					s.conn.Close()
-				} else {
+				case "abort":
+					// the peer goes away abruptly (RST: crashed process, SO_LINGER 0) after its last write
+					s.closed = true
+					s.conn.Abort()
+				default:
 					s.conn.CloseWrite()
 				}
 				return
@@ -425,6 +430,11 @@ func run(sc scenario) (body func(), check func(r *vrt.Result) []finding) {
 		if sc.Initiator == "target" && sc.Mode == "full" {
 			owedToTarget = false
 		}
+		if sc.Mode == "abort" {
+			// a reset may discard what was still in flight in either direction: only integrity (prefix), prompt
+			// end-of-stream at the other end and the release of both connections are owed
+			owedToClient, owedToTarget = false, false
+		}
 		sn := prompt
 		if owedToTarget && sn.tGot != len(C) {
 			if late.tGot == len(C) {
@@ -575,6 +585,13 @@ func scenarios(tier string) []scenario {
 				}
 				out = append(out, scenario{Head: 0, CChunks: []int{1, 2}, TChunks: []int{3, 1}, Initiator: in, Mode: "half", Route: route, Pause: pause})
 			}
+		}
+	}
+	// one end goes away with a reset instead of a close while the other end is waiting for more
+	for _, route := range []string{"", "downstream"} {
+		for _, in := range []string{"client", "target"} {
+			out = append(out, scenario{Head: 0, CChunks: []int{1, 2}, TChunks: []int{3, 1}, Initiator: in, Mode: "abort", Route: route})
+			out = append(out, scenario{Head: 0, CChunks: []int{300}, TChunks: []int{5000}, Initiator: in, Mode: "abort", Route: route, PingPong: true})
 		}
 	}
 	for _, how := range []string{"abort", "close"} {
